@@ -690,7 +690,21 @@ def _poly(case):
     ids = case.get("ids") or ["x%d" % (j + 1) for j in range(len(case["bounds"]))]
     bd = {"int8": numpy.int8, "int16": numpy.int16}.get(case.get("bounds_dtype"))
     mkb = (lambda b: tuple(b)) if bd is None else (lambda b: puan.Bounds(bd(b[0]), bd(b[1])))      # bounds taken from a narrow numpy table
-    vs = [puan.variable.support_vector_variable()] + [puan.variable(i, mkb(b)) for i, b in zip(ids, case["bounds"])]
+    kk = case.get("k", 0)
+    def mkv(j, i, b):
+        # the same declaration in the spellings the constructor documents (bounds as tuple / list / Bounds / single integer, dtype named or not)
+        if bd is not None: return puan.variable(i, mkb(b))
+        f = (kk + j) % 6
+        lo, hi = int(b[0]), int(b[1])
+        if f == 1: return puan.variable(i, (lo, hi), dtype="int")
+        if f == 2: return puan.variable(i, [lo, hi])
+        if f == 3: return puan.variable(i, puan.Bounds(lo, hi))
+        if f == 4 and lo == hi: return puan.variable(i, lo)
+        if f == 4 and (lo, hi) == (0, 1): return puan.variable(i, dtype="bool") if kk % 2 else puan.variable(i)
+        if f == 5 and (lo, hi) == (0, 1): return puan.variable(i, (0, 1), dtype="bool")
+        if f == 5: return puan.variable(i, (lo, hi), dtype=puan.Dtype.INT)
+        return puan.variable(i, (lo, hi))
+    vs = [puan.variable.support_vector_variable()] + [mkv(j, i, b) for j, (i, b) in enumerate(zip(ids, case["bounds"]))]
     idx = case.get("index")
     arr = numpy.array(case["rows"], dtype={"int8": numpy.int8, "int16": numpy.int16, "int32": numpy.int32}.get(case.get("dtype"), numpy.int64)).reshape(len(case["rows"]), len(vs))
     kw = {"index": [puan.variable(i, (0, 1)) for i in idx]} if idx else {}
@@ -815,6 +829,25 @@ def drv_tighten(case):
                         break
                     base = _pp(P, tok)
                     break
+    if k % 2 == 0 and base["rows"] and base["cols"] and not case.get("bounds_dtype") and not case.get("default_vars") and not case.get("dtype"):
+        # polyhedra DERIVED from the queried one by numpy (reversed rows, negated, an edited copy): they answer for their own entries
+        import puan.ndarray as pnd
+        derived = [P[::-1], P * -1, P.copy()]
+        derived[2][0, -1] += 1
+        for Q in derived[(k // 2) % 3:][:2]:
+            qb = _pp(pnd.ge_polyhedron(numpy.array(numpy.asarray(Q)), variables=list(P.variables)), tok)
+            size = 1
+            for c in qb["cols"]: size *= c["hi"] - c["lo"] + 1
+            try:
+                res = {"tight": [[proj.I(x) for x in row] for row in numpy.asarray(Q.tighten_column_bounds()).tolist()],
+                       "rowb": [[proj.I(x) for x in row] for row in numpy.asarray(Q.row_bounds()).tolist()],
+                       "colb": [[proj.I(x) for x in row] for row in numpy.asarray(Q.column_bounds()).tolist()],
+                       "ncomb": [proj.I(x) for x in numpy.asarray(Q.n_row_combinations).tolist()]}
+            except (KeyboardInterrupt, SystemExit): raise
+            except BaseException as ex:
+                out.append({"op": "exc", "exc": type(ex).__name__, "msg": str(ex)[:150], "where": "queries on a polyhedron derived by numpy from a queried one"}); continue
+            out.append(dict(qb, op="tighten", round=2, order=calls, tight=res["tight"], rowb=res["rowb"], colb=res["colb"],
+                            ncomb=res["ncomb"], after=qb, model=qb, wide=size > 3000))
     return out
 
 def _nest(a):
@@ -872,6 +905,27 @@ def drv_classify(case):
                 res["sat"] = [x if isinstance(x, list) else [] for x in (res["sat"] or [[], []])]; res["sep"] = [x if isinstance(x, list) else [] for x in (res["sep"] or [[], []])]
             out.append({"op": "classify", "rows": base["rows"], "cols": base["cols"], "ndim": len(shape), "points": pts,
                         "sat": res["sat"], "sep": res["sep"], "rowsep": res["rowsep"], "dtype": "int64", "empty": True})
+    if case.get("k", 0) % 3 == 0 and base["cols"] and base["rows"] and case["points"]:
+        # a stack of stacks of points (4-D): the answers follow the input shape
+        flat = [p for g in case["points"] for p in (g if g and isinstance(g[0], list) and not (g[0] and isinstance(g[0][0], list)) else [])]
+        flat = [p for p in flat if len(p) == len(base["cols"])]
+        if len(flat) >= 2:
+            g1 = [flat[:2], flat[-2:]]
+            pts4 = [g1, [flat[-2:], flat[:2]], g1] if case.get("k", 0) % 2 else [g1, [flat[-2:], flat[:2]]]
+            classify(P, base, pts4, case.get("k", 0))
+    if case.get("k", 0) % 5 == 0 and base["cols"] and base["rows"]:
+        # every column given a value: what is left has rows and no columns (each row reads 0 >= b'); points of width 0 in every shape
+        for corner in ("lo", "hi"):
+            try:
+                Z = P.reduce_columns(numpy.array([c[corner] for c in base["cols"]], dtype=float))
+                zb = _pp(Z, tok)
+                if zb["cols"]: continue
+                for pts in ([], [[], []], [[[], []], [[], []]]):
+                    classify(Z, zb, pts, case.get("k", 0))
+                    out[-1]["ndim"] = 1 + (len(pts) > 0) + (len(pts) > 0 and len(pts[0]) > 0)
+            except (KeyboardInterrupt, SystemExit): raise
+            except BaseException as ex:
+                out.append({"op": "exc", "exc": type(ex).__name__, "msg": str(ex)[:150], "where": "classification of zero-width points after every column was given a value"})
     # polyhedra DERIVED from an already queried one (numpy views / arithmetic / edited copies) must answer for their own rows
     if len(base["rows"]) >= 1 and case["points"]:
         derived = [P[::-1], P * 2, P.copy()]
@@ -1008,31 +1062,49 @@ def drv_compress(case):
     if lay == "F" and base.ndim >= 2: base = numpy.asfortranarray(base)
     arr = pnd.integer_ndarray(base)
     axis = {"2d0": 0, "2d1": 1, "flat": None, "3d0": 0}[kind]
-    runs = []
     big = bool(numpy.abs(numpy.asarray(x, dtype=object)).max() >= 2 ** 31) if numpy.asarray(x).size else False
     rot = (len(json.dumps(x)) + len(kind)) % len(METHODS)          # the same array object serves all methods, in a rotating order
-    for m in METHODS[rot:] + METHODS[:rot]:
-        if big and m not in ("prio", "rank", "shadow"):
-            continue                      # these return input values, which TLC (32-bit integers) cannot hold
-        if rot % 2:
-            r = pnd.ndint_compress(arr, method=m, axis=axis) if axis is not None else pnd.ndint_compress(arr, method=m)      # module level alias
-        else:
-            r = arr.ndint_compress(method=m, axis=axis) if axis is not None else arr.ndint_compress(method=m)
-        runs.append({"m": m, "r": _nest(numpy.asarray(r).tolist())})
-    xs = x
-    if kind == "flat":
-        xs = numpy.asarray(x).flatten().tolist()
-    if big:
-        # prio / rank / shadow depend only on signs, zeros and the ORDER of the magnitudes: the magnitudes are renamed by their
-        # dense rank (an order isomorphism) so that TLC can read them; the recorded results are left as they are
-        mags = sorted({abs(int(v)) for v in numpy.asarray(xs, dtype=object).flatten().tolist() if v != 0})
-        rank = {v: i + 1 for i, v in enumerate(mags)}
-        def ren(v):
-            if isinstance(v, list): return [ren(i) for i in v]
-            v = int(v)
-            return 0 if v == 0 else (rank[abs(v)] if v > 0 else -rank[abs(v)])
-        xs = ren(xs)
-    return [{"op": "compress", "kind": kind, "x": xs, "runs": runs, "renamed": big}]
+    def one_event(x):
+        runs = []
+        xs = x
+        if kind == "flat":
+            xs = numpy.asarray(x).flatten().tolist()
+        ren = None
+        if big:
+            # prio / rank / shadow depend only on signs, zeros and the ORDER of the magnitudes: the magnitudes are renamed by their
+            # dense rank (an order isomorphism) so that TLC can read them; the recorded results of these methods are left as they are.
+            # first / last / min / max return input values: their results are renamed with the same map (a value that is no input
+            # value gets a name no input value has)
+            mags = sorted({abs(int(v)) for v in numpy.asarray(xs, dtype=object).flatten().tolist() if v != 0})
+            rank = {v: i + 1 for i, v in enumerate(mags)}
+            def ren(v):
+                if isinstance(v, list): return [ren(i) for i in v]
+                v = int(v)
+                return 0 if v == 0 else (rank.get(abs(v), len(mags) + 7) * (1 if v > 0 else -1))
+        for m in METHODS[rot:] + METHODS[:rot]:
+            if rot % 2:
+                r = pnd.ndint_compress(arr, method=m, axis=axis) if axis is not None else pnd.ndint_compress(arr, method=m)      # module level alias
+            else:
+                r = arr.ndint_compress(method=m, axis=axis) if axis is not None else arr.ndint_compress(method=m)
+            rl = numpy.asarray(r).tolist()
+            runs.append({"m": m, "r": ren(rl) if (big and m not in ("prio", "rank", "shadow")) else _nest(rl)})
+        return {"op": "compress", "kind": kind, "x": ren(xs) if big else xs, "runs": runs, "renamed": big}
+    out = [one_event(x)]
+    sel = (len(json.dumps(x)) // 3) % 6
+    if not big and arr.size and sel < 4:
+        # the array is edited in place (not through an item assignment on the object itself) and compressed again: the answers are
+        # about what it holds now
+        try:
+            if sel == 0: arr *= -1
+            elif sel == 1: numpy.negative(arr, out=arr)
+            elif sel == 2 and arr.ndim == 2: arr.T[-1, 0] = (int(arr.T[-1, 0]) + 3) if int(arr.T[-1, 0]) != -3 else 5
+            elif sel == 3 and arr.ndim == 2: arr[0].fill(0)
+            else: arr += (numpy.asarray(arr) != 0)
+            out.append(dict(one_event(numpy.asarray(arr).tolist()), edited=sel))
+        except (KeyboardInterrupt, SystemExit): raise
+        except BaseException as ex:
+            out.append({"op": "exc", "exc": type(ex).__name__, "msg": str(ex)[:150], "where": "compression of an array edited in place"})
+    return out
 
 def _recv(call, tok):
     P = call["polyhedron"]
@@ -1211,6 +1283,25 @@ def _abs_call(obj, op, d, rule, tok, case):
             res = list(obj.select(*prios, solver=s, only_leafs=only))
             out.append([sorted([tok(k), proj.I(v)] for k, v in (r if isinstance(r, dict) else r[0]).items()) for r in res])
         return out, None
+    if op == "select_raise":
+        # a request that fails because of ITS solver: the configurator answers the next request like a fresh one
+        def boom(*a, **k): raise RuntimeError("solver failed")
+        try:
+            list(obj.select({}, solver=boom))
+            return {"exc": ""}, None
+        except Exception as ex:
+            return {"exc": type(ex).__name__}, None
+    if op == "solve":
+        lv = [v.id for v in proj.leaves(obj)]
+        objs = [{}, {lv[0]: 1, lv[-1]: -1}] if lv else [{}]
+        s = solvers.Capture("capture")
+        res = list(obj.solve(objs, solver=s))
+        return [sorted([tok(k), proj.I(v)] for k, v in (r[0] if isinstance(r, tuple) else r).items()) for r in res], None
+    if op == "builtin":
+        # the library's own solver (the default of solve() and select()): its answer is not judged, only that the call leaves
+        # nothing behind and answers like on a fresh object
+        res = list(obj.select({})) if type(obj).__name__ == "StingyConfigurator" else list(obj.solve([{}]))
+        return [sorted([tok(k), proj.I(v)] for k, v in (r[0] if isinstance(r, tuple) else r).items()) for r in res], None
     if op == "add":
         rule_obj = B.build(rule)
         try:
